@@ -322,7 +322,14 @@ class Check:
 
             with open("/root/.vp/EVIDENCE.schema.json") as fh:
                 schema = json.load(fh)
-            jsonschema.validate(ev, schema)
+            try:
+                jsonschema.validate(ev, schema)
+            except jsonschema.ValidationError as exc:
+                if not self.violations:
+                    raise
+                # a tree on which the check already reports a violation and on which neither a proof nor a single
+                # harness case completed: the evidence file says so; the VIOLATION lines above stand
+                print(f"note: evidence of this failing run does not validate ({exc.message})", file=sys.stderr)
         except ImportError:
             pass
         except FileNotFoundError:
